@@ -1,7 +1,7 @@
 (* C07 — property theorems only.  Each is closed by [exact] of a lemma from
    Proofs*.v and followed by Print Assumptions. *)
 From Coq Require Import List Arith ZArith Bool.
-From Verif Require Import lib.Wire c07.Model c07.Spec c07.Proofs c07.Proofs_trace
+From Verif Require Import lib.Wire c07.Model c07.Spec c07.Proofs c07.Proofs_park c07.Proofs_trace
      c07.Proofs_hist c07.Proofs_thms.
 Import ListNotations.
 Local Open Scope Z_scope.
@@ -98,6 +98,25 @@ Theorem c07_scopes_count_held_streams : forall U c ops q,
   outD s q = count_held q (held s) /\ inL s q = count_held q (held s).
 Proof. exact scopes_count_held_i. Qed.
 Print Assumptions c07_scopes_count_held_streams.
+
+(* limited vs direct connections x concurrent opens: opens parked until a direct
+   connection exists (waiter list of Swarm.waitForDirectConn, in registration order).
+   An open whose context ends takes only its own entry off the list: whatever was
+   registered before or after it, the direct connection wakes every parked open
+   whose own context did not end ... *)
+Theorem c07_direct_conn_wakes_every_open_still_parked : forall popens i e q,
+  nth_error popens i = Some (e, q) ->
+  memz (Z.of_nat i) (park_woken popens) = negb e.
+Proof. exact park_wakes_all_others. Qed.
+Print Assumptions c07_direct_conn_wakes_every_open_still_parked.
+
+(* ... so the model runs the parked opens exactly as the property sees them (an open
+   still within its deadline when the direct connection appears has a connection it
+   may use; c07_trace_holds then applies the liveness clause to it) *)
+Theorem c07_parked_opens_run_as_the_property_sees_them : forall popens,
+  park_batch popens = park_view popens.
+Proof. exact park_batch_view. Qed.
+Print Assumptions c07_parked_opens_run_as_the_property_sees_them.
 
 (* ---- non-vacuity ------------------------------------------------------------ *)
 Definition nolim : cfg := mkCfg (fun _ => -1) (fun _ => -1) false false false.
@@ -279,3 +298,40 @@ Example blank_dialer_negotiates :
   | _ => False
   end.
 Proof. vm_compute. repeat split. Qed.
+
+(* ---- parked opens --------------------------------------------------------------- *)
+(* three opens parked on the limited connection; the context of the first and of the
+   last one ends; the direct connection appears: the one in the middle gets its stream *)
+Example parked_open_within_deadline_obtains :
+  let c := mkCfg (fun _ => -1) (fun _ => -1) true true false in
+  let q := mkReq [0] [] false false in
+  let tr := trace_i 2 c init_st [OAdd 0; OPark [(true, q); (false, q); (true, q)]] in
+  match nth 1 tr (OAdd 0, ObMux []) with
+  | (_, ObPark _ [r0; r1; r2] _ _ _) => o_res r0 = 5 /\ obtained r1 = true /\ o_dp r1 = 0 /\ o_res r2 = 5
+  | _ => False
+  end.
+Proof. vm_compute. repeat split. Qed.
+
+(* the trace of m15 (the open parked first gives up and takes the later waiters off
+   the list with it: the second open, still within its deadline when the direct
+   connection appears and asking for a served protocol, fails): rejected *)
+Example monitor_rejects_parked_open_never_woken :
+  monitor_case [7; 2; 3; 2; -1; -1; -1; -1;  1; 0; 1; 0;
+                9; 2; 32; 1; 0; 0; 1; 0;  1; 0;
+                5; -1; -1; -1; -1; 0; -1; -1;  5; -1; -1; -1; -1; 0; -1; -1;  0;  1; 0;  0; 0; 0; 0] <> [].
+Proof. vm_compute. discriminate. Qed.
+
+(* the second open obtains its stream: accepted (the first one is excused: its
+   context ended while the only connection was the limited one) *)
+Example monitor_accepts_parked_open_woken :
+  monitor_case [7; 2; 3; 2; -1; -1; -1; -1;  1; 0; 1; 0;
+                9; 2; 32; 1; 0; 0; 1; 0;  1; 0;
+                5; -1; -1; -1; -1; 0; -1; -1;  0; 0; 1; 0; 0; 1; 0; 0;  0;  1; 0;  1; 0; 1; 0] = [].
+Proof. vm_compute. reflexivity. Qed.
+
+(* and the model reproduces exactly that trace *)
+Example conform_accepts_parked_open_woken :
+  conform_case [7; 2; 3; 2; -1; -1; -1; -1;  1; 0; 1; 0;
+                9; 2; 32; 1; 0; 0; 1; 0;  1; 0;
+                5; -1; -1; -1; -1; 0; -1; -1;  0; 0; 1; 0; 0; 1; 0; 0;  0;  1; 0;  1; 0; 1; 0] = [].
+Proof. vm_compute. reflexivity. Qed.
